@@ -4,6 +4,24 @@ import sys
 sys.unraisablehook = lambda *a: None
 
 
+class Item:
+    """stored objects are DISTINCT but compare EQUAL (like equal tuples or records with different identity): a store
+    must hand out the object that was matched, not one that merely equals it"""
+    __slots__ = ('id',)
+
+    def __init__(self, ident):
+        self.id = ident
+
+    def __eq__(self, other):
+        return isinstance(other, Item)
+
+    def __hash__(self):
+        return 7
+
+    def __repr__(self):
+        return 'Item(%d)' % self.id
+
+
 def run_history(sc):
     from usim.py import Environment, Interrupt
     from usim.py.resources.container import Container
@@ -20,10 +38,10 @@ def run_history(sc):
            'Resource': lambda: Resource(env, capacity=cap), 'PriorityResource': lambda: PriorityResource(env, capacity=cap),
            'PreemptiveResource': lambda: PreemptiveResource(env, capacity=cap)}[kind]()
     reqs, procs, evicted, trace = {}, {}, [], [{'e': 'sc', 'kind': kind, 'cap': cap, 'init': init, 'hist': hist, 'pair': pair}]
-    filters = {0: lambda item: True, 1: lambda item: item % 2 == 1, 2: lambda item: item % 2 == 0, 3: lambda item: False}
+    filters = {0: lambda item: True, 1: lambda item: item.id % 2 == 1, 2: lambda item: item.id % 2 == 0, 3: lambda item: False}
 
     def item_id(x):
-        return x.item if isinstance(x, PriorityItem) else x
+        return x.item if isinstance(x, PriorityItem) else x.id
 
     def op_proc(i, o):
         yield env.timeout(time_of(i))
@@ -35,7 +53,7 @@ def run_history(sc):
                 elif kind == 'PriorityStore':
                     reqs[i] = res.put(PriorityItem(o['p'], i))
                 else:
-                    reqs[i] = res.put(i)
+                    reqs[i] = res.put(Item(i))
             elif op == 'get':
                 if kind == 'Container':
                     reqs[i] = res.get(o['a'])
